@@ -75,10 +75,10 @@ CHECKS['C04'] = (
     'No structural updates in these composites (stale views after structural updates are C07\'s).')
 
 CHECKS['C05'] = (
-    'Hypothesis-generated step DAGs, derivers and nesting; history invariant over the event log against a reference longest-path layering (stamps seen by each step)',
+    'Hypothesis-generated step DAGs, derivers and nesting; history invariant over the event log against a reference longest-path layering (stamps seen by each step); reflow cases re-generate a compartment with a second DAG in one batch',
     'Generated search over DAG shapes, deriver placements, nesting depths and schedules; each step records the done-stamps it sees, so missing/'
     'duplicated runs, wrong order, updates applied too late/early within a phase and phases at the wrong moment are detected for every generated flow.',
-    'Trusts vv/ref/layers.py. Order between derivers of the two dictionaries not asserted; ".." flow dependencies rejected at construction are counted, not flagged. The DAG is fixed at construction (steps created later are C10\'s). <=7 flow steps, <=4 derivers, depth <=2.')
+    'Trusts vv/ref/layers.py. Order between derivers of the two dictionaries not asserted; ".." flow dependencies rejected at construction are counted, not flagged. The DAG is fixed at construction except in the reflow cases (one compartment of 2..5 steps deleted and re-generated under the same key in one batch with a second DAG); other steps created later are C10\'s. <=7 flow steps, <=4 derivers, depth <=2.')
 
 CHECKS['C06'] = (
     'hierarchy-first Hypothesis generator (target tree first, ports/topologies derived, wiring map W recorded) with a construction-time ground-truth oracle: read == W-node value, write == W-node + increment, frame condition',
